@@ -1,4 +1,444 @@
 import InfernoVerif.Lemmas.Encoder
+import Mathlib.Tactic.Ring
+import Mathlib.Tactic.NormNum
+/-!
+# C19 — spike encoders respect shape, silence at zero, one spike per step and the refractory gap
+
+Property theorems about the executable model of `Model/Encoder.lean` (definitions) with helper
+lemmas in `Lemmas/Encoder.lean`.  Every theorem quantifies over EVERY sample list — that is the
+"for all generator seeds" quantifier — every `steps`, every configuration and every input rate.
+
+Hypotheses and where the real code gets them from:
+* `0 < c.dt` — `argtest.gt("step_time", …)` in `StepTimeMixin`;
+* `PosSamples ss` (`0 < s`) — support of `Tensor.exponential_`; `k = 0` for Poisson samples of a
+  silent element — `torch.poisson(0) = 0`; `0 ≤ u` — `torch.rand ∈ [0, 1)` (trusted base, asserted
+  on every replayed tensor by the harness);
+* `c.compat x` — the interval scale `1000/(x·dt) − refrac/dt` is non-negative.  For the modules it
+  follows (`compat_of_frequency_refrac`, `encoder_compat`) from `frequency · refrac < 1000`, which
+  the constructor (D26) and every setter (D30 for `dt`) enforce: `encRun_inv`.  The functional API
+  documents the excluded region as "nonsensical".
+* minimum gap: `⌊refrac/dt⌋` steps for every rational `refrac/dt ≥ 0`; `= R` when `refrac = R·dt`.
+-/
 namespace InfernoVerif.Enc
-theorem placeholder_c19 : True := trivial
+
+/-- the support of `exponential_` -/
+def PosSamples (ss : List Rat) : Prop := ∀ s ∈ ss, (0 : Rat) < s
+
+/-! ## Offline refractory Poisson encoder (`homogeneous_poisson_exp_interval`) -/
+
+/-- `shape_steps`: whatever was sampled, an element's train has exactly `steps` entries. -/
+theorem exp_shape_steps (c : ExpCfg) (x : Rat) (ss : List Rat) (out : List Bool)
+    (h : expOffline c x ss = some out) : out.length = c.steps := by
+  unfold expOffline at h
+  simp only [Option.map_eq_some_iff] at h
+  obtain ⟨idx, _, rfl⟩ := h
+  rw [scatter_succ_dropLast, scatter_length]
+
+theorem timeFirst_shape (steps : Nat) (trains : List (List Bool)) :
+    (timeFirst steps trains).length = steps ∧ ∀ r ∈ timeFirst steps trains, r.length = trains.length := by
+  constructor
+  · simp [timeFirst]
+  · intro r hr
+    simp only [timeFirst, List.mem_map] at hr
+    obtain ⟨t, _, rfl⟩ := hr
+    simp
+
+/-- Time-first layout: row `t`, column `i` of the output is step `t` of element `i`'s train. -/
+theorem timeFirst_entry (steps : Nat) (trains : List (List Bool)) (t i : Nat) (tr : List Bool)
+    (ht : t < steps) (hi : trains[i]? = some tr) (hl : tr.length = steps) :
+    ((timeFirst steps trains)[t]?).bind (·[i]?) = tr[t]? := by
+  have h1 : (timeFirst steps trains)[t]? = some (trains.map fun tr => tr.getD t false) := by
+    simp [timeFirst, ht]
+  rw [h1]
+  simp only [Option.bind_some, List.getElem?_map, hi, Option.map_some]
+  rw [List.getD_eq_getElem?_getD, List.getElem?_eq_getElem (by omega)]
+  simp
+
+/-- `shape_steps` for the whole tensor: `steps` rows (time first), one entry per element. -/
+theorem exp_time_first (c : ExpCfg) (cols : List (Rat × List Rat)) (rows : List (List Bool))
+    (h : expOfflineT c cols = some rows) :
+    rows.length = c.steps ∧ ∀ r ∈ rows, r.length = cols.length := by
+  unfold expOfflineT at h
+  simp only [Option.map_eq_some_iff] at h
+  obtain ⟨trains, htr, rfl⟩ := h
+  have hlen : trains.length = cols.length := by
+    have := congrArg List.length ((allSome_eq_some _ _).1 htr)
+    simpa using this.symm
+  obtain ⟨h1, h2⟩ := timeFirst_shape c.steps trains
+  exact ⟨h1, fun r hr => by rw [h2 r hr, hlen]⟩
+
+/-- Under the audited hypotheses the encoder returns a train (no scatter index is invalid: the
+real code does not raise). -/
+theorem exp_total (c : ExpCfg) (x : Rat) (ss : List Rat) (hdt : 0 < c.dt) (hR : 0 ≤ c.R)
+    (hx : 0 ≤ x) (hc : c.compat x = true) (hs : PosSamples ss) :
+    ∃ out, expOffline c x ss = some out := by
+  have hge := scale_ge_of_compat c x hdt hx hc
+  cases hsc : c.scale x with
+  | fin q => rw [hsc] at hge; exact ⟨_, expOffline_fin c x q ss hsc hge hR hs⟩
+  | pinf => exact ⟨_, expOffline_pinf c x ss hsc hs⟩
+  | ninf => rw [hsc] at hge; simp [GE] at hge
+  | nan => rw [hsc] at hge; simp [GE] at hge
+
+/-- `zero_is_silent`: an element of rate 0 never fires, for every sample sequence
+(`1/0 = +∞` keeps every cumulative time at `+∞`, i.e. in the dropped row). -/
+theorem exp_zero_is_silent (c : ExpCfg) (ss : List Rat) (hdt : 0 < c.dt) (hs : PosSamples ss) :
+    ∃ out, expOffline c 0 ss = some out ∧ ∀ b ∈ out, b = false := by
+  refine ⟨_, expOffline_pinf c 0 ss (scale_zero c hdt) hs, ?_⟩
+  intro b hb
+  simp only [scatter, List.mem_map, List.mem_range] at hb
+  obtain ⟨t, ht, rfl⟩ := hb
+  simp only [decide_eq_false_iff_not, not_exists, not_and]
+  intro s _ h
+  omega
+
+/-- `at_most_one_per_step`, what it means for the scatter: step `t` carries a spike iff AT LEAST ONE
+cumulative interval time falls into `[t, t+1)` — two times landing in the same step give one
+spike, and no time below `steps` is lost (times `≥ steps` land in the dropped row). -/
+theorem exp_spike_iff (c : ExpCfg) (x q : Rat) (ss : List Rat) (out : List Bool) (t : Nat)
+    (hsc : c.scale x = .fin q) (hq : 0 ≤ q) (hR : 0 ≤ c.R) (hs : PosSamples ss)
+    (h : expOffline c x ss = some out) (ht : t < c.steps) :
+    out[t]? = some true ↔ ∃ T ∈ timesQ c q ss, (t : Rat) ≤ T ∧ T < (t : Rat) + 1 := by
+  rw [expOffline_fin c x q ss hsc hq hR hs] at h
+  simp only [Option.some.injEq] at h; subst h
+  have hnn : ∀ T ∈ timesQ c q ss, 0 ≤ T := fun T hT => le_trans hR ((timesQ_sep c q ss hq hR hs).1 T hT)
+  rw [scatter_getElem?, if_pos ht]
+  simp only [Option.some.injEq, decide_eq_true_eq, List.mem_map]
+  have hsteps : ((t : Rat) + 1) ≤ (c.steps : Rat) := by exact_mod_cast ht
+  constructor
+  · rintro ⟨T, hT, hidx⟩
+    have hlt : T < (c.steps : Rat) := by
+      by_contra hge
+      have := idxQ_of_ge c.steps T (not_lt.1 hge)
+      omega
+    have hfl := idxQ_of_lt c.steps T (hnn T hT) hlt
+    rw [hidx] at hfl
+    refine ⟨T, hT, ?_, ?_⟩
+    · have := Rat.floor_le T; rw [← hfl] at this; exact_mod_cast this
+    · have := Rat.lt_floor_add_one T; rw [← hfl] at this; exact_mod_cast this
+  · rintro ⟨T, hT, h1, h2⟩
+    refine ⟨T, hT, ?_⟩
+    have hlt : T < (c.steps : Rat) := lt_of_lt_of_le h2 hsteps
+    have hfl := idxQ_of_lt c.steps T (hnn T hT) hlt
+    have e1 : (t : Int) ≤ T.floor := by rw [Rat.le_floor_iff]; exact_mod_cast h1
+    have e2 : T.floor < (t : Int) + 1 := by rw [Rat.floor_lt_iff]; exact_mod_cast h2
+    omega
+
+/-- `min_gap`: for every sample sequence, two spikes of one element are at least `⌊refrac/dt⌋`
+steps apart (`T_{j+1} − T_j ≥ R ⇒ ⌊T_{j+1}⌋ − ⌊T_j⌋ ≥ ⌊R⌋`, by induction over the interval list). -/
+theorem exp_min_gap (c : ExpCfg) (x : Rat) (ss : List Rat) (out : List Bool) (t1 t2 : Nat)
+    (hdt : 0 < c.dt) (hR : 0 ≤ c.R) (hx : 0 ≤ x) (hc : c.compat x = true) (hs : PosSamples ss)
+    (h : expOffline c x ss = some out) (h1 : out[t1]? = some true) (h2 : out[t2]? = some true)
+    (h12 : t1 < t2) : c.R.floor ≤ (t2 : Int) - (t1 : Int) := by
+  have hge := scale_ge_of_compat c x hdt hx hc
+  cases hsc : c.scale x with
+  | fin q =>
+    rw [hsc] at hge
+    rw [expOffline_fin c x q ss hsc hge hR hs] at h
+    simp only [Option.some.injEq] at h; subst h
+    obtain ⟨hlow, hsep⟩ := timesQ_sep c q ss hge hR hs
+    exact scatter_gap c.steps c.R hR _ (fun t ht => le_trans hR (hlow t ht)) hsep t1 t2 h12 h1 h2
+  | pinf =>
+    rw [expOffline_pinf c x ss hsc hs] at h
+    simp only [Option.some.injEq] at h; subst h
+    rw [scatter_getElem?] at h1
+    split at h1
+    · simp only [Option.some.injEq, decide_eq_true_eq, List.mem_map] at h1
+      obtain ⟨_, _, h⟩ := h1; omega
+    · simp at h1
+  | ninf => rw [hsc] at hge; simp [GE] at hge
+  | nan => rw [hsc] at hge; simp [GE] at hge
+
+/-- `refrac = R·dt` with `R ∈ ℕ`: the configured quotient is exactly `R`. -/
+theorem R_of_multiple (c : ExpCfg) (k : Nat) (hdt : 0 < c.dt) (hr : c.refrac = some ((k : Rat) * c.dt)) :
+    c.R = (k : Rat) := by
+  unfold ExpCfg.R; rw [hr]; field_simp
+
+/-- `refrac = None`: the refractory period is one step. -/
+theorem R_of_none (c : ExpCfg) (hdt : 0 < c.dt) (hr : c.refrac = none) : c.R = 1 := by
+  unfold ExpCfg.R; rw [hr]; field_simp
+
+/-- `min_gap` as the property states it: `refrac = R·dt`, `R ∈ ℕ` ⇒ spikes are `≥ R` steps apart. -/
+theorem exp_min_gap_multiple (c : ExpCfg) (k : Nat) (x : Rat) (ss : List Rat) (out : List Bool)
+    (t1 t2 : Nat) (hdt : 0 < c.dt) (hr : c.refrac = some ((k : Rat) * c.dt)) (hx : 0 ≤ x)
+    (hc : c.compat x = true) (hs : PosSamples ss) (h : expOffline c x ss = some out)
+    (h1 : out[t1]? = some true) (h2 : out[t2]? = some true) (h12 : t1 < t2) : t1 + k ≤ t2 := by
+  have hRk := R_of_multiple c k hdt hr
+  have hR : 0 ≤ c.R := by rw [hRk]; exact Nat.cast_nonneg k
+  have := exp_min_gap c x ss out t1 t2 hdt hR hx hc hs h h1 h2 h12
+  have hfl : c.R.floor = (k : Int) := by
+    rw [hRk]; have := Rat.floor_intCast (k : Int); simpa using this
+  omega
+
+/-- Hypothesis audit: `frequency · refrac < 1000` (what constructor and setters enforce) makes the
+interval scale non-negative for every intensity in `[0, 1]`. -/
+theorem compat_of_frequency_refrac (c : ExpCfg) (f i : Rat) (hdt : 0 < c.dt) (hR : 0 ≤ c.R)
+    (hf : 0 ≤ f) (hi0 : 0 ≤ i) (hi1 : i ≤ 1) (hfr : f * (c.R * c.dt) < 1000) :
+    c.compat (f * i) = true := by
+  unfold ExpCfg.compat
+  by_cases h0 : f * i = 0
+  · simp [h0]
+  · have hpos : 0 < f * i := lt_of_le_of_ne (mul_nonneg hf hi0) (Ne.symm h0)
+    have hden : 0 < f * i * c.dt := mul_pos hpos hdt
+    have hkey : c.R * (f * i * c.dt) ≤ 1000 := by
+      have h1 : 0 ≤ f * (c.R * c.dt) := mul_nonneg hf (mul_nonneg hR (le_of_lt hdt))
+      have h2 : c.R * (f * i * c.dt) = i * (f * (c.R * c.dt)) := by ring
+      rw [h2]
+      have : i * (f * (c.R * c.dt)) ≤ 1 * (f * (c.R * c.dt)) := mul_le_mul_of_nonneg_right hi1 h1
+      linarith
+    have : c.R ≤ 1000 / (f * i * c.dt) := by rw [le_div_iff₀ hden]; exact hkey
+    simp [this]
+
+/-! ## Online refractory Poisson encoder (`homogeneous_poisson_exp_interval_online`) -/
+
+theorem expOnlineInit_get (c : ExpCfg) (xs s0 : List Rat) (i : Nat) (e : ExpElem)
+    (h : (expOnlineInit c xs s0)[i]? = some e) :
+    ∃ x s, xs[i]? = some x ∧ s0[i]? = some s ∧ e = { sc := c.scale x, iv := c.interval (c.scale x) s } := by
+  unfold expOnlineInit at h
+  rw [List.getElem?_zipWith] at h
+  cases hx : xs[i]? with
+  | none => simp [hx] at h
+  | some x =>
+    cases hs : s0[i]? with
+    | none => simp [hx, hs] at h
+    | some s =>
+      simp only [hx, hs, Option.some.injEq] at h
+      exact ⟨x, s, rfl, rfl, h.symm⟩
+
+/-- `shape_steps` (online): exactly one slice per step, each with one entry per element. -/
+theorem expOnline_shape (c : ExpCfg) (xs s0 : List Rat) (freshs : List (List Rat))
+    (rows : List (List Bool)) (h : expOnline c xs s0 freshs = some rows) (hl : s0.length = xs.length) :
+    rows.length = freshs.length ∧ ∀ r ∈ rows, r.length = xs.length := by
+  obtain ⟨h1, h2⟩ := runT_shape _ _ _ _ freshs rows h
+  refine ⟨h1, fun r hr => ?_⟩
+  rw [h2 r hr]; simp [expOnlineInit, hl]
+
+/-- `zero_is_silent` (online): an element of rate 0 never fires, whatever is sampled later. -/
+theorem expOnline_zero_is_silent (c : ExpCfg) (xs s0 : List Rat) (freshs : List (List Rat))
+    (rows : List (List Bool)) (hdt : 0 < c.dt) (h : expOnline c xs s0 freshs = some rows)
+    (hs0 : PosSamples s0) (i : Nat) (hx : xs[i]? = some 0) (t : Nat) (row : List Bool)
+    (ht : rows[t]? = some row) (hi : i < s0.length) : row[i]? = some false := by
+  have hget : (expOnlineInit c xs s0)[i]? = some { sc := .pinf, iv := .pinf } := by
+    unfold expOnlineInit
+    have hs : s0[i]? = some s0[i] := List.getElem?_eq_getElem hi
+    rw [List.getElem?_zipWith, hx, hs]
+    have hpos : 0 < s0[i] := hs0 _ (List.getElem_mem hi)
+    simp [scale_zero c hdt, ExpCfg.interval, Ext.mulFin, Ext.addFin, hpos]
+  refine runT_never_fires expAdv expFires (expRedraw c) (fun e => e.iv = .pinf) ?_ _ freshs rows h i _ hget rfl t row ht
+  intro e he
+  simp [expFires, expAdv, he, Ext.addFin, Ext.ltFin]
+
+/-- `online_gap`: the online count-down obeys the same minimum gap, for every sample sequence
+(induction over the steps; after a spike the redrawn interval is `≥ R`, and an interval `≥ r`
+cannot drop below 1 within fewer than `⌊r⌋` decrements). -/
+theorem expOnline_gap (c : ExpCfg) (xs s0 : List Rat) (freshs : List (List Rat))
+    (rows : List (List Bool)) (hdt : 0 < c.dt)
+    (hx : ∀ x ∈ xs, 0 ≤ x ∧ c.compat x = true)
+    (hs : ∀ fr ∈ freshs, PosSamples fr)
+    (h : expOnline c xs s0 freshs = some rows)
+    (i t1 t2 : Nat) (r1 r2 : List Bool) (h1 : rows[t1]? = some r1) (h2 : rows[t2]? = some r2)
+    (s1 : r1[i]? = some true) (s2 : r2[i]? = some true) (h12 : t1 < t2) :
+    c.R.floor ≤ (t2 : Int) - (t1 : Int) := by
+  refine expRun_gap c _ freshs rows h ?_ hs i t1 t2 r1 r2 h1 h2 s1 s2 h12
+  intro j e hj
+  obtain ⟨x, s, hxj, _, rfl⟩ := expOnlineInit_get c xs s0 j e hj
+  obtain ⟨hx0, hxc⟩ := hx x (List.mem_of_getElem? hxj)
+  exact scale_ge_of_compat c x hdt hx0 hxc
+
+/-- `online_gap` for `refrac = R·dt`. -/
+theorem expOnline_gap_multiple (c : ExpCfg) (k : Nat) (xs s0 : List Rat) (freshs : List (List Rat))
+    (rows : List (List Bool)) (hdt : 0 < c.dt) (hr : c.refrac = some ((k : Rat) * c.dt))
+    (hx : ∀ x ∈ xs, 0 ≤ x ∧ c.compat x = true) (hs : ∀ fr ∈ freshs, PosSamples fr)
+    (h : expOnline c xs s0 freshs = some rows)
+    (i t1 t2 : Nat) (r1 r2 : List Bool) (h1 : rows[t1]? = some r1) (h2 : rows[t2]? = some r2)
+    (s1 : r1[i]? = some true) (s2 : r2[i]? = some true) (h12 : t1 < t2) : t1 + k ≤ t2 := by
+  have := expOnline_gap c xs s0 freshs rows hdt hx hs h i t1 t2 r1 r2 h1 h2 s1 s2 h12
+  have hfl : c.R.floor = (k : Int) := by
+    rw [R_of_multiple c k hdt hr]; have := Rat.floor_intCast (k : Int); simpa using this
+  omega
+
+/-! ## Poisson-interval encoder (`poisson_interval`, `poisson_interval_online`) -/
+
+/-- `shape_steps`: `steps + 2` scattered rows minus the first and the last. -/
+theorem poisson_shape_steps (steps : Nat) (x : Rat) (ks : List Nat) :
+    (poissonOffline steps x ks).length = steps := by
+  simp only [poissonOffline, scatter_drop_dropLast]; simp
+
+/-- `zero_is_silent`: a zero-rate element is not bumped, its (zero) samples keep every cumulative
+time at 0, and row 0 is removed. -/
+theorem poisson_zero_is_silent (steps : Nat) (ks : List Nat) (hk : ∀ k ∈ ks, k = 0) :
+    ∀ b ∈ poissonOffline steps 0 ks, b = false := by
+  intro b hb
+  simp only [poissonOffline, scatter_drop_dropLast, List.mem_map, List.mem_range] at hb
+  obtain ⟨t, _, rfl⟩ := hb
+  simp only [decide_eq_false_iff_not, not_exists, not_and]
+  intro T hT
+  have hbump : ks.map (bump (decide ((0 : Rat) < 0))) = ks := by
+    have : bump (decide ((0 : Rat) < 0)) = id := by funext k; simp [bump]
+    rw [this, List.map_id]
+  rw [hbump] at hT
+  have := cumsumNat_zeros ks hk T hT
+  subst this
+  simp
+
+/-- Faithfulness note (an observation, NOT a clause of C19): the offline Poisson-interval encoder
+fires every non-silent element at the LAST step — `steps + 2` bumped intervals sum to more than
+`steps`, `clamp_max(steps)` parks the overflow in row `steps`, and `res[1:-1]` keeps that row. -/
+theorem poisson_last_step_fires (steps : Nat) (x : Rat) (ks : List Nat) (hx : 0 < x)
+    (hs : 1 ≤ steps) (hl : ks.length = steps + 2) :
+    (poissonOffline steps x ks)[steps - 1]? = some true := by
+  have hne : ks.map (bump (decide (0 < x))) ≠ [] := by
+    intro h; have := congrArg List.length h; simp [hl] at this
+  have hge : ∀ k ∈ ks.map (bump (decide (0 < x))), 1 ≤ k := by
+    intro k hk
+    simp only [List.mem_map] at hk
+    obtain ⟨k0, _, rfl⟩ := hk
+    simp only [bump, hx, decide_true, Bool.true_and]
+    split
+    · omega
+    · rename_i h; simp at h; omega
+  obtain ⟨T, hT, hle⟩ := cumsumNat_last 0 _ hne hge
+  simp only [List.length_map, hl] at hle
+  simp only [poissonOffline, scatter_drop_dropLast]
+  rw [List.getElem?_map, List.getElem?_range (by omega)]
+  simp only [Option.map_some, Option.some.injEq, decide_eq_true_eq, List.mem_map]
+  exact ⟨T, hT, by omega⟩
+
+theorem poissonOnline_shape (xs : List Rat) (k0 : List Nat) (freshs : List (List Nat))
+    (rows : List (List Bool)) (h : poissonOnline xs k0 freshs = some rows) (hl : k0.length = xs.length) :
+    rows.length = freshs.length ∧ ∀ r ∈ rows, r.length = xs.length := by
+  obtain ⟨h1, h2⟩ := runT_shape _ _ _ _ freshs rows h
+  refine ⟨h1, fun r hr => ?_⟩
+  rw [h2 r hr]; simp [poissonOnlineInit, hl]
+
+/-- `zero_is_silent` (online): the spike test is masked by `inputs > 0`. -/
+theorem poissonOnline_zero_is_silent (xs : List Rat) (k0 : List Nat) (freshs : List (List Nat))
+    (rows : List (List Bool)) (h : poissonOnline xs k0 freshs = some rows)
+    (i : Nat) (hx : xs[i]? = some 0) (hi : i < k0.length) (t : Nat) (row : List Bool)
+    (ht : rows[t]? = some row) : row[i]? = some false := by
+  have hget : (poissonOnlineInit xs k0)[i]? = some { mask := false, iv := (k0[i] : Int) } := by
+    unfold poissonOnlineInit
+    rw [List.getElem?_zipWith, hx, List.getElem?_eq_getElem hi]
+    simp
+  refine runT_never_fires poiAdv poiFires poiRedraw (fun e => e.mask = false) ?_ _ freshs rows h i _ hget rfl t row ht
+  intro e he
+  simp [poiFires, poiAdv, he]
+
+/-! ## Bernoulli approximations -/
+
+/-- the probability clamp: `p ∈ [0, 1]` for every non-negative rate -/
+theorem prob_mem (dt x : Rat) (hdt : 0 < dt) (hx : 0 ≤ x) : 0 ≤ prob dt x ∧ prob dt x ≤ 1 := by
+  unfold prob
+  have : 0 ≤ x / 1000 * dt := by positivity
+  constructor <;> (simp only; split <;> linarith)
+
+theorem bernoulli_shape (dt : Rat) (xs : List Rat) (U : List (List Rat)) (hU : ∀ r ∈ U, r.length = xs.length) :
+    (bernoulliT dt xs U).length = U.length ∧ ∀ r ∈ bernoulliT dt xs U, r.length = xs.length := by
+  constructor
+  · simp [bernoulliT]
+  · intro r hr
+    simp only [bernoulliT, List.mem_map] at hr
+    obtain ⟨u, hu, rfl⟩ := hr
+    simp [hU u hu]
+
+/-- `zero_is_silent`: `u < 0` is false for every uniform sample `u ≥ 0`. -/
+theorem bernoulli_zero_is_silent (dt : Rat) (xs : List Rat) (U : List (List Rat))
+    (hU : ∀ r ∈ U, ∀ u ∈ r, (0 : Rat) ≤ u) (t i : Nat) (row : List Bool)
+    (ht : (bernoulliT dt xs U)[t]? = some row) (hx : xs[i]? = some 0) : row[i]? ≠ some true := by
+  simp only [bernoulliT, List.getElem?_map, Option.map_eq_some_iff] at ht
+  obtain ⟨u, hu, rfl⟩ := ht
+  rw [List.getElem?_zipWith, hx]
+  cases hui : u[i]? with
+  | none => simp
+  | some v =>
+    have hv : 0 ≤ v := hU u (List.mem_of_getElem? hu) v (List.mem_of_getElem? hui)
+    simp [prob, not_lt.2 hv]
+
+/-- an input at or above the clamp (`x·dt ≥ 1000`) fires at every step: `u < 1` -/
+theorem bernoulli_saturated (dt x u : Rat) (h : 1000 ≤ x * dt) (hu : u < 1) :
+    decide (u < prob dt x) = true := by
+  have : 1 ≤ x / 1000 * dt := by
+    rw [div_mul_eq_mul_div, le_div_iff₀ (by norm_num)]; linarith
+  unfold prob
+  simp only
+  split
+  · simp only [decide_eq_true_eq]; linarith
+  · simpa using hu
+
+/-! ## `deterministic`: the model is a pure function of inputs and samples
+
+Trivial in Lean (every definition is a function); stated so that the clause has a name.  The
+code-side counterpart — re-running from a cloned generator state — is tested on every case. -/
+theorem deterministic (c : ExpCfg) (x x' : Rat) (ss ss' : List Rat) (hx : x = x') (hs : ss = ss') :
+    expOffline c x ss = expOffline c x' ss' := by rw [hx, hs]
+
+theorem deterministic_online (c : ExpCfg) (xs xs' s0 s0' : List Rat) (fr fr' : List (List Rat))
+    (h1 : xs = xs') (h2 : s0 = s0') (h3 : fr = fr') :
+    expOnline c xs s0 fr = expOnline c xs' s0' fr' := by rw [h1, h2, h3]
+
+/-! ## Encoder modules: every accepted configuration meets the hypotheses -/
+
+/-- The constructor only returns configurations satisfying the invariant (D26). -/
+theorem enc_ctor_inv (steps : Int) (dt freq : Rat) (refrac : Option Rat) (comp : Bool) (s : EncState)
+    (h : encCtor steps dt freq refrac comp = some s) : EncInv s := encCtor_inv steps dt freq refrac comp s h
+
+/-- Every setter sequence keeps it (D30 for `dt`); a rejected setter changes nothing. -/
+theorem enc_reachable_inv (steps : Int) (dt freq : Rat) (refrac : Option Rat) (comp : Bool)
+    (s : EncState) (h : encCtor steps dt freq refrac comp = some s) (ops : List CfgOp) :
+    EncInv (encRun s ops) := encRun_inv s ops (encCtor_inv steps dt freq refrac comp s h)
+
+theorem enc_rejected_unchanged (s : EncState) (op : CfgOp) (h : encSet s op = none) :
+    (encStep s op).1 = s := by simp [encStep, h]
+
+theorem expCfg_R (s : EncState) : s.expCfg.R = s.refrac / s.dt := rfl
+
+/-- A reachable module configuration is compatible with every intensity in `[0, 1]`. -/
+theorem encoder_compat (s : EncState) (hi : EncInv s) (i : Rat) (hi0 : 0 ≤ i) (hi1 : i ≤ 1) :
+    s.expCfg.compat (s.freq * i) = true := by
+  by_cases hc : s.comp = true
+  · have hdt : 0 < s.expCfg.dt := hi.dt_pos
+    have hR : 0 ≤ s.expCfg.R := by rw [expCfg_R]; exact div_nonneg hi.refrac_nonneg (le_of_lt hi.dt_pos)
+    apply compat_of_frequency_refrac s.expCfg s.freq i hdt hR hi.freq_nonneg hi0 hi1
+    have : s.expCfg.R * s.expCfg.dt = s.refrac := by
+      rw [expCfg_R]; show s.refrac / s.dt * s.dt = s.refrac
+      field_simp [ne_of_gt hi.dt_pos]
+    rw [this]; exact hi.compat hc
+  · simp [ExpCfg.compat, EncState.expCfg, hc]
+
+/-- The property for the module: after ANY constructor + setter history that ends with
+`refrac = R·dt`, for every intensity in `[0,1]` and every sample sequence, two spikes of an element
+are at least `R` steps apart. -/
+theorem encoder_min_gap (steps : Int) (dt freq : Rat) (refrac : Option Rat) (comp : Bool)
+    (s0 : EncState) (h0 : encCtor steps dt freq refrac comp = some s0) (ops : List CfgOp)
+    (k : Nat) (hk : (encRun s0 ops).refrac = (k : Rat) * (encRun s0 ops).dt)
+    (i : Rat) (hi0 : 0 ≤ i) (hi1 : i ≤ 1) (ss : List Rat) (hs : PosSamples ss) (out : List Bool)
+    (h : expOffline (encRun s0 ops).expCfg ((encRun s0 ops).freq * i) ss = some out)
+    (t1 t2 : Nat) (h1 : out[t1]? = some true) (h2 : out[t2]? = some true) (h12 : t1 < t2) :
+    t1 + k ≤ t2 := by
+  have hinv := enc_reachable_inv steps dt freq refrac comp s0 h0 ops
+  exact exp_min_gap_multiple _ k _ ss out t1 t2 hinv.dt_pos (by simp [EncState.expCfg, hk])
+    (mul_nonneg hinv.freq_nonneg hi0) (encoder_compat _ hinv i hi0 hi1) hs h h1 h2 h12
+
+/-! ## Non-vacuity: concrete instances meeting the hypotheses -/
+
+/-- 100 Hz maximum, dt = 1 ms, refrac = 3 ms with compensation: accepted (`100·3 < 1000`). -/
+def exEnc : EncState := ⟨10, 1, 100, 3, false, true⟩
+example : encCtor 10 1 100 (some 3) true = some exEnc := by decide +kernel
+example : exEnc.expCfg.compat (100 * 1) = true := by decide +kernel
+example : exEnc.expCfg.R = 3 := by decide +kernel
+/-- 400 Hz × 3 ms is rejected by the constructor (D26) and by every setter path (D30 for `dt`). -/
+example : encCtor 20 1 400 (some 3) true = none := by decide +kernel
+example : encSet ⟨20, 1, 400, 2, false, true⟩ (.setRefrac (some 3)) = none := by decide +kernel
+example : encSet ⟨20, 1, 400, 1, true, true⟩ (.setDt 3) = none := by decide +kernel
+/-- samples `1/2, 1/4, 2, 1/8` at full intensity: times `3+7/2, …` — spikes at steps 6 and 9. -/
+example : expOffline exEnc.expCfg 100 [1/2, 1/4, 2] =
+    some [false, false, false, false, false, false, true, false, false, false] := by decide +kernel
+example : PosSamples [1/2, 1/4, 2] := by intro s hs; simp at hs; rcases hs with rfl | rfl | rfl <;> norm_num
+/-- a silent element next to an active one, online: first spike at step 5 (`6.5 − 6 < 1`), redraw
+`1/7·7 + 3 = 4`, next spike 4 steps later (≥ R = 3) -/
+example : expOnline exEnc.expCfg [0, 100] [1, 1/2] [[], [], [], [], [], [1/7], [], [], [], [1/4]] =
+    some [[false, false], [false, false], [false, false], [false, false], [false, false], [false, true],
+          [false, false], [false, false], [false, false], [false, true]] := by decide +kernel
+/-- the Poisson-interval observation on a concrete instance -/
+example : poissonOffline 4 10 [2, 0, 5, 1, 1, 1] = [false, true, true, true] := by decide +kernel
+
 end InfernoVerif.Enc
